@@ -512,12 +512,16 @@ def run_unit(ck, unit):
                 # replay: the model's number, then the boundary numbers, as YAML / JSON text through serde and the adapter
                 import struct
                 kk = model.eval(num['kind'], model_completion=True).as_long()
+                fbits = fp_bits(model, num['f'])
+                fval = struct.unpack('<d', struct.pack('<Q', fbits))[0]
+                ftxt = repr(fval) if fval == fval and abs(fval) != float('inf') else '1.5'
                 first = {0: str(model.eval(num['u'], model_completion=True).as_long()),
-                         1: str(norm_int(model.eval(num['i'], model_completion=True).as_long(), 'i64')), 2: '1.5'}[kk]
+                         1: str(norm_int(model.eval(num['i'], model_completion=True).as_long(), 'i64')), 2: ftxt}[kk]
                 br_ = ck.bridge()
-                for text in [first, '0', '1', '-1', '9223372036854775807', '9223372036854775808', '18446744073709551615', '-9223372036854775808', '1.5', '-0.5']:
+                for text in [first, '0', '1', '-1', '9223372036854775807', '9223372036854775808', '18446744073709551615', '-9223372036854775808', '1.5', '-0.5',
+                             '2.0', '-3.0', '0.0', '1e3', '1.0e19']:
                     n = br_.call(cmd='scalar_value', text=text, json=(tag == 'json'))
-                    if '.' in text:
+                    if '.' in text or 'e' in text or 'E' in text:
                         exp = {'$f64': struct.unpack('<Q', struct.pack('<d', float(text)))[0]}
                     elif text.startswith('-'):
                         exp = {'$i64': int(text)}
